@@ -4,7 +4,7 @@ from ..core import parse_sx
 
 class C01(Prop):
     ID = "C01"
-    THEOREMS = []
+    THEOREMS = ["C01_accept_iff", "C01_query_sections", "C01_full_span_read", "C01_roundtrip_exact"]
     RULE = ("bbi cases: 1-6 chromosomes (names whose first-appearance, lexicographic and id order differ), per chromosome a layout "
             "from the grammar dense/sparse/adjacent/zero-length/edge-touching/long gap/long item, arbitrary finite f32 bit patterns, "
             "options from compress x items_per_slot{1,2,3,7,1024} x block_size{2,3,4,5,256} x zoom modes x single/two pass; "
